@@ -1150,7 +1150,24 @@ func (w *_structAssembler) AssembleKey() datamodel.NodeAssembler {
 		schemaType: schemaTypeString,
 		val:        reflect.New(goTypeString).Elem(),
 	}
+	// A repeated field must be rejected when the key is supplied.
+	w.curKey.finish = func() error {
+		return w.checkRepeatedField(w.curKey.val.String())
+	}
 	return &w.curKey
+}
+
+// checkRepeatedField returns a repeated-key error if the field with the given (type-level) name
+// has already been assembled. Unknown names are reported later, by AssembleValue.
+func (w *_structAssembler) checkRepeatedField(name string) error {
+	if w.schemaType.Field(name) == nil {
+		return nil
+	}
+	ftyp, ok := w.val.Type().FieldByName(fieldNameFromSchema(name))
+	if ok && len(ftyp.Index) == 1 && w.doneFields[ftyp.Index[0]] {
+		return datamodel.ErrRepeatedMapKey{Key: basicnode.NewString(name)}
+	}
+	return nil
 }
 
 func (w *_structAssembler) AssembleValue() datamodel.NodeAssembler {
@@ -1267,6 +1284,13 @@ func (w *_mapAssembler) AssembleKey() datamodel.NodeAssembler {
 		cfg:        w.cfg,
 		schemaType: w.schemaType.KeyType(),
 		val:        reflect.New(w.valuesVal.Type().Key()).Elem(),
+	}
+	// A repeated key must be rejected when the key is supplied, with no side effect.
+	w.curKey.finish = func() error {
+		if w.valuesVal.MapIndex(w.curKey.val).IsValid() {
+			return datamodel.ErrRepeatedMapKey{Key: newNode(w.cfg, w.schemaType.KeyType(), w.curKey.val)}
+		}
+		return nil
 	}
 	return &w.curKey
 }
